@@ -669,6 +669,8 @@ impl Bgi {
     }
 
     pub fn put_pixel(&mut self, x: i32, y: i32, color: u8) {
+        #[cfg(icy_engine_verif)]
+        crate::verif_hooks::tick(1);
         if !self.viewport.contains(x, y) {
             return;
         }
